@@ -140,3 +140,15 @@ Definition idr_guard (c : bcase) : bool :=
   end.
 Definition in_idr_class (c : bcase) : bool := mentions_idr (b_params c) && idr_guard c.
 Definition idr_class := mismatches_from (fun c => negb (in_idr_class c)) 0.
+
+(* known-finding class C11-exponential-self-reference: structname mentions .StructName
+   three or more times (the value then grows like 3^passes before the cap is reached; the
+   model has unbounded memory, the implementation has not) *)
+Fixpoint count_sub (needle s : str) : nat :=
+  match s with
+  | [] => 0
+  | _ :: r => (if has_prefix s needle then 1 else 0) + count_sub needle r
+  end.
+Definition self_refs (ps : params) : nat := count_sub (B ".StructName") (p_struct ps).
+Definition in_growth_class (c : dcase) : bool := 3 <=? self_refs (d_params c).
+Definition growth_class := mismatches_from (fun c => negb (in_growth_class c)) 0.
